@@ -84,14 +84,14 @@ func Wide() Profile {
 func Request() Profile {
 	return Profile{Name: "request", MaxServices: 2, MaxMethods: 3, MaxFields: 6, Runtime: true,
 		Validations: true, Defaults: true, UserTypes: true, Aliases: true, Recursive: true, MultiRoute: true, BasePaths: true, Cookies: true,
-		ExplicitBody: true, Maps: true, Bytes: true, NoBodyVerbs: true, PrimPayloads: true, Errors: true, ParamHeavy: true, Unions: true, AbsoluteRoutes: true}
+		ExplicitBody: true, Maps: true, Bytes: true, NoBodyVerbs: true, PrimPayloads: true, Errors: true, ParamHeavy: true, Unions: true, AbsoluteRoutes: true, DualTransport: true}
 }
 
 // Errors is the C05 profile.
 func Errors() Profile {
 	return Profile{Name: "errors", MaxServices: 2, MaxMethods: 3, MaxFields: 4, Runtime: true,
 		Validations: true, Defaults: true, UserTypes: true, Aliases: true, MultiRoute: true, BasePaths: true,
-		Maps: true, PrimPayloads: true, Errors: true, CustomErrors: true, ParamHeavy: true}
+		Maps: true, PrimPayloads: true, Errors: true, CustomErrors: true, ParamHeavy: true, DualTransport: true}
 }
 
 // Routes is the C07/C14 document profile: routes, verbs, base paths, params in every location, file servers, security.
@@ -134,7 +134,7 @@ func Security() Profile {
 func Response() Profile {
 	return Profile{Name: "response", MaxServices: 2, MaxMethods: 3, MaxFields: 6, Runtime: true,
 		Validations: true, Defaults: true, UserTypes: true, Aliases: true, Recursive: true, Tags: true, RespHeaders: true, Cookies: true,
-		ExplicitBody: true, Maps: true, Bytes: true, PrimPayloads: true, ResultTypes: true, RespHeavy: true, AliasDefaults: true, Unions: true}
+		ExplicitBody: true, Maps: true, Bytes: true, PrimPayloads: true, ResultTypes: true, RespHeavy: true, AliasDefaults: true, Unions: true, DualTransport: true}
 }
 
 // G carries the state of one design generation.
